@@ -208,7 +208,7 @@ def main(argv):
     for l in lines:
         print(l)
     for v, path in new_violations:
-        print("  violated: [%s] %s :: %s  @%s" % (v["rule"], v["key"], v["msg"][:400], v["where"]))
+        print("  violated: [%s] %s :: %s  @%s" % (v["rule"], v["key"][:160], v["msg"][:300], v["where"]))
         print("VIOLATION property=%s replay=%s" % (prop, path))
     return 1 if new_violations else 0
 
